@@ -35,6 +35,14 @@ ASSUMPTIONS = [
     "fewer than 119 ResponsePending frames per request (MAX_N_PENDING, C04's subject); client timing as in UDSClient: timeout "
     "2 s, retry_wait 0.2 s * 2^i, pending loop gives up after 40 * 0.5 s, pings every 0.5 s with 0.5 s timeout; the scanner's "
     "--sleep is 0",
+    "slow session changes: a positive reply announced with ResponsePending arrives less than 20 s (PENDING_GIVEUP_MS, the 40 reads of "
+    "0.5 s of the client's pending loop) after the last pending frame: transparent (scan_slow_pending_transparent; generated gaps "
+    "0.3 / 3.9 / 5.3 / 12.2 / 19.1 s of virtual time on graph and security-locked ECUs, session changes only); from 20 s on the "
+    "transmission counts as unanswered (slow_pending_lost_at_giveup; the late reply that then meets the next request is not "
+    "modelled and not generated); gaps on S3-timer ECUs are not generated (the model's idle time does not count them)",
+    "the content of a positive DiagnosticSessionControl reply beyond `50 <sub-function>` (the sessionParameterRecord, generated with "
+    "0 / 2 / 4 / 5 / 6 bytes per ECU or per session) is not part of the model: Ans.pos has no content, the scanner must not "
+    "depend on it",
     "completeness is claimed for runs that do not exit with status 1; every ECU whose sessions can all re-enter the "
     "default session (ISO 14229-1: `10 01` is mandatory) is proved to be such a run",
     "OEM hooks are represented by the list of 2-byte requests they send (send_raw through request_unsafe, reply ignored, an "
@@ -75,6 +83,23 @@ def refused_reply(kind, req):
             "e": bytes([sid + 0x40, (sub ^ 0x04) & 0x7F]) + (bytes.fromhex("003201f4") if sid == 0x10 else b"")}[kind]
 
 
+RECORD = bytes.fromhex("003201f4aa55")   # P2Server_max, P2*Server_max, manufacturer specific trailing bytes
+REC_LENS = [0, 2, 4, 5, 6]               # none / P2 only (ISO 14229-1:2006) / P2 + P2* / with trailing bytes
+GAPS_MS = [300, 3900, 5300, 12200, 19100]  # silence between the last ResponsePending and the positive reply (< 20 s)
+
+
+def dsc_pos(sub, rec=None):
+    """the positive reply `50 sub <sessionParameterRecord>`; `rec`: list of record lengths, the session `u` gets the one
+    at index u % len(rec) (default: the 4-byte record)"""
+    n = 4 if not rec else rec[(sub & 0x7F) % len(rec)]
+    return bytes([0x50, sub]) + RECORD[:n]
+
+
+def gap_ms(dl, cur, code):
+    """ms of silence between the last ResponsePending frame and a positive reply to `10 code` received in session `cur`"""
+    return dl[(cur * 3 + code) % len(dl)] if dl else 0
+
+
 # ------------------------------------------------------------------------------------------------------------
 # the implementation side
 # ------------------------------------------------------------------------------------------------------------
@@ -93,8 +118,9 @@ def _load_impl():
     class GraphTransport(BaseTransport, scheme="graph"):
         """the ECU: session graph + current session; answers DSC, ECUReset and TesterPresent"""
 
-        def __init__(self, target, edges, rst, edges_h=None, pre=(), post=(), boot=0):
+        def __init__(self, target, edges, rst, edges_h=None, pre=(), post=(), boot=0, rec=None):
             super().__init__(target)
+            self.rec = rec          # lengths of the sessionParameterRecord of the positive DSC replies
             self.edges = edges
             self.rst = rst
             # an ECU on which the session hooks of the (OEM) ECU class have an effect: a `10 u` that comes right after the
@@ -154,7 +180,7 @@ def _load_impl():
                     self.hooked = False   # an unanswered / busy hooked attempt is retransmitted under the same conditions
                 if r == "pos":
                     self.cur = data[1] & 0x7F
-                    r = bytes([0x50, data[1], 0x00, 0x32, 0x01, 0xF4])
+                    r = dsc_pos(data[1], self.rec)
                 if data[1] & 0x80 and r is not None and r[0] == 0x50:
                     r = None
             elif sid == 0x11 and len(data) == 2:
@@ -192,8 +218,9 @@ def _load_impl():
         wrapped into ResponsePending frames and a script of sporadic faults (nothing / busyRepeatRequest)"""
 
         def __init__(self, target, case):
-            super().__init__(target, parse_edges(case), case["rst"])
+            super().__init__(target, parse_edges(case), case["rst"], rec=case.get("rec"))
             self.fam = case["fam"]
+            self.dl = list(case.get("dl", ()))
             self.s3ms = case.get("s3ms", 0)
             self.s3n = case.get("s3n", 0)
             self.lk = {tuple(e) for e in case.get("lk", ())}
@@ -271,11 +298,15 @@ def _load_impl():
                     return len(data)
             code = data[1] & 0x7F if sid == 0x10 else data[1] if sid == 0x11 else 0 if sid == 0x3E else (data[0] << 8 | data[1])
             npend = (self.cur + code) % (self.pn + 1)
+            gap = gap_ms(self.dl, self.cur, code) if (npend and sid == 0x10 and len(data) == 2) else 0
             r = self._app(data, idle_ms)
             self.queue = [bytes([0x7F, sid, 0x78])] * npend
             if r == "pos":
-                self.queue.append(bytes([0x50, data[1], 0x00, 0x32, 0x01, 0xF4]) if sid == 0x10 else
-                                  bytes([0x51, data[1]]) if sid == 0x11 else bytes([0x7E, 0x00]))
+                fin = (dsc_pos(data[1], self.rec) if sid == 0x10 else
+                       bytes([0x51, data[1]]) if sid == 0x11 else bytes([0x7E, 0x00]))
+                # a session change that takes its time: the switch is announced with ResponsePending, the positive reply
+                # follows `gap` ms after the last pending frame
+                self.queue.append((now + gap / 1000.0, fin) if gap else fin)
             elif isinstance(r, bytes):
                 self.queue.append(r)
             elif r is not None:
@@ -286,6 +317,14 @@ def _load_impl():
             if not self.queue:
                 await asyncio.sleep(timeout if timeout is not None else 3600.0)
                 raise asyncio.TimeoutError()
+            if isinstance(self.queue[0], tuple):
+                wait = self.queue[0][0] - asyncio.get_event_loop().time()
+                if timeout is not None and wait > timeout:
+                    await asyncio.sleep(timeout)
+                    raise asyncio.TimeoutError()
+                if wait > 0:
+                    await asyncio.sleep(wait)
+                return self.queue.pop(0)[1]
             return self.queue.pop(0)
 
     class VecuTransport(GraphTransport, scheme="vecu"):
@@ -428,7 +467,7 @@ def run_impl(case, dbfile=None):
     else:
         gh = None if case.get("gh") is None else {(int(k.split(">")[0]), int(k.split(">")[1])): v for k, v in case["gh"].items()}
         tr = m["GraphTransport"](m["TargetURI"](DB_TARGET), parse_edges(case), case["rst"], gh,
-                                 case.get("pre", ()), case.get("post", ()), case.get("boot", 0))
+                                 case.get("pre", ()), case.get("post", ()), case.get("boot", 0), case.get("rec"))
     if case.get("start") and "vecu" not in case:
         tr.cur = case["start"]   # the ECU was left in another session (by an earlier scan, another tester); the client assumes 0x01
     if case.get("pre") or case.get("post"):
@@ -544,6 +583,8 @@ def _hook_fields(case):
         out += f" hq={_csv(case['post'])}"
     if case.get("boot"):
         out += f" boot={case['boot']}"
+    if case.get("rec"):
+        out += f" rec={_csv(case['rec'])}"   # length of the sessionParameterRecord: not part of the model (Ans.pos has no content)
     return out
 
 
@@ -566,6 +607,8 @@ def scans_line(case):
         out += f" pn={case['pn']}"
     if case.get("fl"):
         out += " fl=" + ",".join(case["fl"])
+    if case.get("dl"):
+        out += f" dl={_csv(case['dl'])}"
     return out
 
 
@@ -1087,6 +1130,60 @@ def rand_case(rng, widened=False):
     return case, shape + ("" if reentry else "+no-reentry")
 
 
+def rand_case_rec(rng):
+    """positive session-change replies carry a sessionParameterRecord of varying legitimate length - one length for the
+    whole ECU or one per session (graph ECU, and the stateful graph ECU behind ResponsePending frames)"""
+    if rng.random() < 0.3:
+        case, label = rand_case_s(rng)
+        if case["fam"] == "s3":
+            case["fam"] = "graph"
+            case.pop("s3ms", None)
+            case.pop("s3n", None)
+    else:
+        case, label = rand_case(rng)
+    case["rec"] = [rng.choice(REC_LENS)] if rng.random() < 0.3 else [rng.choice(REC_LENS) for _ in range(rng.randint(2, 5))]
+    return case, "record:" + label
+
+
+def rand_case_slow(rng):
+    """ECUs on which session changes take their time: `7f 10 78` at once, the positive reply `gap` ms later (0.3 .. 19.1 s,
+    below the 20 s the client's pending loop tolerates), the scanner's default timeout (2 s) and max_retry"""
+    shape = rng.choice(["density", "chain", "chain", "cycle", "deep-only", "deep-only", "islands"])
+    g, ids = rand_graph(rng, shape)
+    g = decorate(rng, g, ids, rng.random() < 0.9)
+    sk = rng.random()
+    skip = [] if sk < 0.7 else rng.sample(ids[1:], min(len(ids) - 1, rng.randint(1, 2)))
+    case = mk_case(g, rng.choice([1, 2, 2, 3, 3, 4]), skip, thorough=rng.random() < 0.2, reset=rng.choice([None, None, None, 1]),
+                   hooks=rng.random() < 0.15, max_retry=rng.choice([0, 0, 1, 3]), rst="p")
+    case["fam"] = rng.choice(["graph", "graph", "locked"])
+    if case["fam"] == "locked":
+        pos = [tuple(map(int, k.split(">"))) for k, v in case["g"].items() if v == "p" and not k.endswith(">1")]
+        case["lk"] = sorted(rng.sample(pos, min(len(pos), rng.randint(0, 2))))
+    case["pn"] = rng.choice([1, 1, 2, 3])
+    case["dl"] = [rng.choice(GAPS_MS + [0]) for _ in range(rng.randint(1, 4))]
+    if not any(case["dl"]):
+        case["dl"][0] = rng.choice(GAPS_MS)
+    if rng.random() < 0.3:
+        case["rec"] = [rng.choice(REC_LENS) for _ in range(rng.randint(1, 3))]
+    if rng.random() < 0.2:   # sporadic lost requests / busyRepeatRequest within the retry bound on top
+        fl = []
+        for _ in range(rng.choice([5, 20, 60])):
+            f = rng.choice(["s", "b"]) if rng.random() < 0.1 else "-"
+            run = 0
+            for x in reversed(fl):
+                if x == "-":
+                    break
+                run += 1
+            fl.append(f if run < case["max_retry"] else "-")
+        while fl and fl[-1] == "-":
+            fl.pop()
+        if fl:
+            case["fl"] = fl
+    if case["thorough"] and n_walks(case, 25) > 25:
+        case["thorough"] = False
+    return case, "slow-session-change:" + shape + ":" + case["fam"]
+
+
 def exhaustive_cases(ids, depth, **kw):
     pairs = [(a, b) for a in ids for b in ids]
     for bits in itertools.product([0, 1], repeat=len(pairs)):
@@ -1127,9 +1224,15 @@ def shrink(ctx, case, cls):
         for f, v in (("thorough", False), ("hooks", False), ("reset", None), ("max_retry", 0), ("rst", "p")):
             if cur[f] != v:
                 cands.append({**cur, f: v})
-        for f in ("boot", "post", "pre", "gh", "pn", "s3ms", "s3n", "fl"):
+        for f in ("boot", "post", "pre", "gh", "pn", "s3ms", "s3n", "fl", "rec", "dl"):
             if cur.get(f):
                 cands.append({k: v for k, v in cur.items() if k != f})
+        for f in ("rec", "dl"):
+            if len(cur.get(f) or ()) > 1:
+                for v in sorted(set(cur[f])):
+                    cands.append({**cur, f: [v]})
+        if cur.get("pn", 0) > 1:
+            cands.append({**cur, "pn": 1})
         if cur.get("fl"):
             for n in range(len(cur["fl"])):
                 cands.append({**cur, "fl": cur["fl"][:n] + cur["fl"][n + 1:]})
@@ -1300,6 +1403,25 @@ def run(ctx):
         c, label = rand_case_s(rng)
         add(c, label)
 
+    # 6. the content of the positive reply: sessionParameterRecord of 0 / 2 / 4 / 5 / 6 bytes, per ECU or per session
+    chain = {(1, 1): "p", (1, 3): "p", (3, 1): "p", (3, 3): "p", (3, 0x40): "p", (3, 0x60): "p", (0x40, 1): "p", (0x40, 0x41): "p",
+             (0x41, 1): "p", (0x60, 1): "p", (0x60, 0x61): "p", (0x61, 1): "p", (0x70, 1): "p", (0x70, 0x71): "p", (0x71, 1): "p"}
+    for n in REC_LENS:
+        add({**mk_case(chain, 3), "rec": [n]}, f"record:corner:all-{n}-bytes")
+    add({**mk_case(chain, 4), "rec": REC_LENS}, "record:corner:per-session")
+    add({**mk_case(chain, 3, max_retry=1), "fam": "graph", "pn": 2, "rec": [4, 2, 6, 0, 5]}, "record:corner:per-session+pending")
+    for _ in range(ctx.pick(90, 1500)):
+        c, label = rand_case_rec(rng)
+        add(c, label)
+    # 7. session changes that complete 0.3 .. 19.1 s after their ResponsePending (virtual time; client timeout 2 s)
+    slow = {(1, 1): "p", (1, 2): "p", (1, 3): "p", (2, 1): "p", (2, 0x45): "p", (3, 1): "p", (3, 3): "p", (0x45, 1): "p"}
+    for d in GAPS_MS:
+        for mr in (0, 2):
+            add({**mk_case(slow, 2, max_retry=mr), "fam": "graph", "pn": 1, "dl": [d]}, f"slow-session-change:corner:{d}ms")
+    for _ in range(ctx.pick(70, 1200)):
+        c, label = rand_case_slow(rng)
+        add(c, label)
+
     impls, models, specs = evaluate(ctx, cases, procs)
     seen_cls = {}
     for case, label, impl, model, spec in zip(cases, labels, impls, models, specs):
@@ -1384,7 +1506,12 @@ MANIFEST = {
                    "the exact wire trace; every graph case is also run through the stateful model (twin check). Graph ECUs answer "
                    "edges, hooked attempts and the ECUReset with refused replies of four kinds (`7f 10 80` / `7f 10 23`, `50`, "
                    "`7f 22 31` / `62 f1 86 03`, `50 07 ..`), switched or not; stateful ECUs garble replies by script (instead of "
-                   "handling / after handling the request, hook requests included)."),
+                   "handling / after handling the request, hook requests included). Positive session-change replies carry a "
+                   "sessionParameterRecord of 0 / 2 / 4 / 5 / 6 bytes (per ECU / per session; the model has no reply content, so any "
+                   "dependence of the scan on it is a disagreement); session changes announced with ResponsePending complete 0.3 .. 19.1 s "
+                   "(virtual time) later with the default client timeout and max_retry 0..3 (Model: withSlowPending; "
+                   "scan_slow_pending_transparent: below the 20 s of the pending loop the scan is the scan of the ECU that answers at "
+                   "once; slow_pending_lost_at_giveup: at 20 s the transmission is lost)."),
     "level_note": ("Trusted: Lean kernel (axioms propext, Quot.sound, Classical.choice), the harness and its graph ECU, the "
                    "virtual-time loop. The ECU class is a deterministic session graph (answers depend on the current "
                    "session and on whether the session hook preceded the request); responsePending handling belongs to C04; OEM "
